@@ -295,6 +295,11 @@ func (w *World) resolve(p string, followLast bool) (resolved, syscall.Errno) {
 	if p == "" {
 		return resolved{}, syscall.ENOENT
 	}
+	// PATH_MAX and NAME_MAX of Linux: the limits apply to the string handed to
+	// the system call and to each of its components
+	if len(p) >= 4096 {
+		return resolved{}, syscall.ENAMETOOLONG
+	}
 	trailing := strings.HasSuffix(p, "/") && strings.Trim(p, "/") != ""
 	var stack []*Inode
 	var names []string
@@ -331,6 +336,14 @@ func (w *World) resolve(p string, followLast bool) (resolved, syscall.Errno) {
 			}
 			continue
 		}
+		if len(c) > 255 {
+			if last {
+				// the parent resolved; callers that care about the order in which the
+				// kernel reports errors (rename) get it
+				return resolved{parent: cur, name: c}, syscall.ENAMETOOLONG
+			}
+			return resolved{}, syscall.ENAMETOOLONG
+		}
 		ch := cur.Children[c]
 		if ch == nil {
 			if last {
@@ -346,6 +359,9 @@ func (w *World) resolve(p string, followLast bool) (resolved, syscall.Errno) {
 			t := ch.Target
 			if t == "" {
 				return resolved{}, syscall.ENOENT
+			}
+			if len(t) >= 4096 {
+				return resolved{}, syscall.ENAMETOOLONG
 			}
 			rest := append(splitPath(t), comps[i+1:]...)
 			if strings.HasPrefix(t, "/") {
@@ -527,7 +543,7 @@ var errnoByName = map[string]syscall.Errno{
 	"EEXIST": syscall.EEXIST, "EPERM": syscall.EPERM, "EXDEV": syscall.EXDEV,
 	"ENOTEMPTY": syscall.ENOTEMPTY, "EINVAL": syscall.EINVAL, "EBUSY": syscall.EBUSY,
 	"ENFILE": syscall.ENFILE, "ENOMEM": syscall.ENOMEM, "EINTR": syscall.EINTR,
-	"ESTALE": syscall.ESTALE, "EBADF": syscall.EBADF,
+	"ESTALE": syscall.ESTALE, "EBADF": syscall.EBADF, "ENAMETOOLONG": syscall.ENAMETOOLONG,
 }
 
 // ErrnoName returns the symbolic name of an errno the simulator uses.
@@ -1316,19 +1332,26 @@ func (w *World) Rename(oldp, newp string) syscall.Errno {
 	}
 	// the kernel resolves both parent directories before it looks up the last
 	// component of the old name
+	lastOnly := func(e syscall.Errno, r resolved) bool {
+		return (e == syscall.ENOENT || e == syscall.ENAMETOOLONG) && r.parent != nil
+	}
 	ro, e := w.resolve(oldp, false)
-	if e != 0 && !(e == syscall.ENOENT && ro.parent != nil) {
+	if e != 0 && !lastOnly(e, ro) {
 		op.Err = ErrnoName(e)
 		return e
 	}
 	rn, e2 := w.resolve(newp, false)
-	if e2 != 0 && !(e2 == syscall.ENOENT && rn.parent != nil) {
+	if e2 != 0 && !lastOnly(e2, rn) {
 		op.Err = ErrnoName(e2)
 		return e2
 	}
 	if e != 0 {
 		op.Err = ErrnoName(e)
 		return e
+	}
+	if e2 == syscall.ENAMETOOLONG {
+		op.Err = ErrnoName(e2)
+		return e2
 	}
 	op.Ino = ro.node.Ino
 	if ro.parent == nil {
@@ -1380,6 +1403,10 @@ func (w *World) Symlink(target, linkp string) syscall.Errno {
 	op, f, ok := w.begin("symlink", w.Abs(linkp))
 	defer w.end(op)
 	op.Path2 = target
+	if ok && len(target) >= 4096 {
+		op.Err = "ENAMETOOLONG"
+		return syscall.ENAMETOOLONG
+	}
 	if !ok {
 		return syscall.EIO
 	}
